@@ -1848,6 +1848,18 @@ Proof.
   - rewrite E. apply matches_spec_observe; auto.
 Qed.
 
+(* ... and list the very same edge descriptors (ordinals included) when their edge lists are equal *)
+Lemma obs_same_model U KS e1 e2 s1 s2 :
+  Inv s1 -> WU U s1 -> Inv s2 -> WU U s2 -> abs s1 = abs s2 -> edges s1 = edges s2 ->
+  obs_same U KS (observe U KS e1 s1) (observe U KS e2 s2) = true.
+Proof.
+  intros I1 W1 I2 W2 E Ee. unfold obs_same. rewrite obs_equiv_same_abs; auto. cbn [andb].
+  unfold edges_identical. apply forallb_In. intros u Hu.
+  apply (set_eqb_spec edesc_eqb edesc_eqb_eq). intros x.
+  rewrite (obs_edges_row_In U KS e1 s1 I1 u x Hu), (obs_edges_row_In U KS e2 s2 I2 u x Hu), Ee.
+  tauto.
+Qed.
+
 Lemma ver_n_succ o v : ver_n o = v + 1 <-> o = Some v.
 Proof.
   destruct o as [w|]; simpl; split; intros H; try discriminate; try lia.
@@ -1962,14 +1974,14 @@ Proof.
       apply (has_node_set_self s (Nd k kind None)).
     + destruct (node_listed (k_base k) (observe U KS e s)) eqn:L; auto.
       apply node_listed_observe in L. destruct L as [_ L].
-      apply obs_equiv_same_abs; auto. simpl. unfold add_builtin. rewrite L. reflexivity.
+      apply obs_same_model; auto; simpl; unfold add_builtin; rewrite L; reflexivity.
   - (* AddNode *)
     simpl in Hu, I', W'. apply memN_In in Hu. apply andb_true_iff. split.
     + apply node_listed_ver_observe. split; auto. simpl. apply add_node_version.
     + destruct (node_listed_ver (k_base k) (k_ver k) (observe U KS e s)) eqn:L; auto.
       apply node_listed_ver_observe in L. destruct L as [_ [n [G V]]].
-      apply obs_equiv_same_abs; auto. simpl. unfold add_node. rewrite G, V. simpl.
-      rewrite N.eqb_refl. reflexivity.
+      apply obs_same_model; auto; simpl; unfold add_node; rewrite G, V; simpl;
+        rewrite N.eqb_refl; reflexivity.
   - (* AddStruct *)
     simpl in Hu. apply andb_true_iff in Hu. destruct Hu as [Hu _]. apply memN_In in Hu.
     apply node_listed_ver_observe. split; auto. simpl.
@@ -1989,9 +2001,15 @@ Proof.
   - (* AddEdge *)
     destruct (edge_listed (k_base f) kind (k_base t) (observe U KS e s)) eqn:L; auto.
     apply edge_listed_observe in L; auto. destruct L as [x [Hx Px]].
-    apply obs_equiv_same_abs; auto. simpl. rewrite abs_add_edge. symmetry.
-    apply sp_add_edge_present. rewrite abs_edges. apply existsb_exists.
-    exists (proj_edge x). split; [apply in_map; auto|]. apply sedge_eqb_eq. auto.
+    assert (Ex : existsb (same_edge (k_base f) kind (k_base t)) (edges s) = true).
+    { apply existsb_exists. exists x. split; auto. unfold proj_edge in Px.
+      injection Px as E1 E2 E3. unfold same_edge. rewrite E1, E2, E3, !N.eqb_refl. reflexivity. }
+    apply obs_same_model; auto.
+    + simpl. rewrite abs_add_edge. symmetry.
+      apply sp_add_edge_present. rewrite abs_edges. apply existsb_exists.
+      exists (proj_edge x). split; [apply in_map; auto|]. apply sedge_eqb_eq. auto.
+    + (* the repeated AddEdge creates no new descriptor: the edge list - ordinals included - is the same *)
+      simpl. unfold add_edge. rewrite Ex. reflexivity.
   - (* RemoveNode *)
     simpl in Hu, I', W'. apply memN_In in Hu.
     destruct (remove_node_post (rn_fuel s) s k I (rn_fuel_ok s)) as [X P].
@@ -2015,8 +2033,10 @@ Proof.
         { destruct (has_node s (k_base k)) eqn:H; auto.
           assert (node_listed (k_base k) (observe U KS e s) = true)
             by (apply node_listed_observe; auto). congruence. }
-        apply obs_equiv_same_abs; auto. simpl. rewrite abs_remove_node; auto using rn_fuel_ok.
-        symmetry. apply sp_remove_node_absent. rewrite sp_has_abs. auto.
+        apply obs_same_model; auto.
+        -- simpl. rewrite abs_remove_node; auto using rn_fuel_ok.
+           symmetry. apply sp_remove_node_absent. rewrite sp_has_abs. auto.
+        -- cbn [step]. unfold rn_fuel. rewrite remove_node_S, H. reflexivity.
 Qed.
 
 Lemma prop_from_model U KS : forall h s e,
@@ -2116,6 +2136,20 @@ Proof.
   split; [apply (run_Inv sched_id sched_id_ok)|]. split; vm_compute; reflexivity.
 Qed.
 
+(* re-inserting an existing edge: the oracle accepts the model's run and rejects a run in which the
+   repeated AddEdge gave the edge a new incarnation (same answers as sets - [obs_equiv] - but a new
+   ordinal) *)
+Definition reins : list op := [AddEdge kA kB ETy; AddEdge kA kB ETy].
+Definition reins_bad : list obs :=
+  let os := observe_run sched_id demo_U demo_KS empty
+              [AddEdge kA kB ETy; RemoveEdge kA kB None; AddEdge kA kB ETy] in
+  [nth 0 os obs_empty; nth 2 os obs_empty].
+Example reinsert_keeps_ordinal :
+  prop_C17 demo_U demo_KS reins (observe_run sched_id demo_U demo_KS empty reins) = true /\
+  prop_C17 demo_U demo_KS reins reins_bad = false /\
+  obs_equiv demo_U demo_KS (nth 0 reins_bad obs_empty) (nth 1 reins_bad obs_empty) = true /\
+  map (fun r => map ed_ord (snd r)) (o_edges (nth 1 reins_bad obs_empty)) = [[1]; [1]].
+Proof. vm_compute. auto. Qed.
 
 (* ------------------------------------------------------------------ order independence *)
 
